@@ -3,7 +3,7 @@
    WITH the fixes applied ([fixed]); the [_refuted] theorems are about the historical transitions
    ([prefix]).  Quantification: every finite list of requests, every action list accepted by [run]. *)
 From Gv Require Import lib.Bytes C11.Model C11.Spec C11.ProofsInbMain C11.ProofsSubMain
-  C11.ProofsSpec C11.ProofsRefuted.
+  C11.ProofsSpec C11.ProofsRefuted C11.ProofsCheckerInb C11.ProofsCheckerSub.
 From Coq Require Import Arith.
 Open Scope nat_scope.
 
@@ -124,6 +124,21 @@ Theorem c11_spec_b_sound : forall reqs os,
   spec_b reqs os = None -> forall i, i < length reqs -> actor_ok reqs os i.
 Proof. exact ProofsSpec.spec_b_sound. Qed.
 Print Assumptions c11_spec_b_sound.
+
+(* every complete run of the fixed models passes the checker that is evaluated on the implementation *)
+Theorem c11_inb_model_passes_checker : forall reqs, key_determines_body reqs -> forall s,
+  inb_reach reqs s ->
+  (forall i, i < length reqs -> Inb.a_out (Inb.act s i) <> None) ->
+  spec_b reqs (inb_observe reqs s) = None.
+Proof. exact ProofsCheckerInb.spec_b_model. Qed.
+Print Assumptions c11_inb_model_passes_checker.
+
+Theorem c11_sub_model_passes_checker : forall reqs, sub_key_determines_body reqs -> forall s,
+  sub_reach reqs s ->
+  (forall i, i < length reqs -> Sub.a_out (Sub.act s i) <> None) ->
+  spec_b reqs (sub_observe reqs s) = None.
+Proof. exact ProofsCheckerSub.spec_b_model. Qed.
+Print Assumptions c11_sub_model_passes_checker.
 
 (* ------------------------------------------------------------------ historical code *)
 Theorem c11_inb_no_double_close_refuted :
